@@ -896,6 +896,15 @@ def main(argv=None):
                    'non-trivial = the cut falls strictly inside a vote write or between vote and finish; '
                    'distinct by (history hash, event index, byte offset)',
               assumptions=['crash image = byte-prefix of the ISSUED raw operations (no reordering by the OS)',
+                           'generalisation pass: storages built through the constructor and ZODB.config with create=/quota=/'
+                           'blob_dir=; oids in many index buckets incl. 0, 2^63, 2^64-1; empty transactions (tl == header '
+                           'length) first/between/last; two undo records / two stores per oid; records > 64 KiB after a '
+                           'larger transaction; metadata at 65535; EIO/ENOSPC (also short writes) at a raw operation of '
+                           'tpc_vote/tpc_finish followed by a retry of the same transaction, by giving up, and by crashes; a '
+                           'rival tpc_begin between store and vote; crash while the index is being saved; reopen next to all '
+                           'side files of the moment, with options, through copyTransactionsFrom; second and third crash. '
+                           'Histories with faults, rivals or create=/quota= are ORACLE-ONLY (no model comparison); fsrecover '
+                           'on crash images is left to C17',
                            'besides crash images every history is also read LIVE through the running storage (load through '
                            'the read-file pool while a transaction is voted, after aborts and commits; one loadSerial of a '
                            'back-pointer revision from a second thread while a vote is between its writes): an unfinished '
